@@ -433,18 +433,30 @@ def check_case(op, args):
         req = np.diag(a) - np.diag(b) if op == "diag-=diag" else np.diag(a) + np.diag(b)
         return (compressed_dense(x).tolist(), req.tolist()) if bad(compressed_dense(x), req) else None
     if op in ("diag+ndarray", "ndarray+diag"):
-        a, M = np.array(args["a"]), np.array(args["M"])
+        a, M = np.array(args["a"]), np.array(args["M"], dtype=float)
         req = np.diag(a) + M
+        Mu, Du = M.copy(), D(a.copy())           # the caller's operands: the same objects are used twice
         try:
-            got = D(a.copy()) + M.copy() if op == "diag+ndarray" else M.copy() + D(a.copy())
+            got = Du + Mu if op == "diag+ndarray" else Mu + Du
+            again = Du + Mu if op == "diag+ndarray" else Mu + Du
         except Exception as e:
             return ("raises " + type(e).__name__, req.tolist())
-        return (np.asarray(got).tolist(), req.tolist()) if bad(got, req) else None
+        if bad(got, req):
+            return (np.asarray(got).tolist(), req.tolist())
+        if bad(again, req) or bad(Mu, M) or bad(np.diag(Du.diag), np.diag(a)):
+            return ("the operation changed its operands: the same sum computed a second time gives " + str(np.asarray(again).tolist()), req.tolist())
+        return None
     if op in ("diag@ndarray", "ndarray@diag"):
-        a, M = np.array(args["a"]), np.array(args["M"])
-        got = D(a.copy()) @ M.copy() if op == "diag@ndarray" else M.copy() @ D(a.copy())
+        a, M = np.array(args["a"]), np.array(args["M"], dtype=float)
+        Mu, Du = M.copy(), D(a.copy())
+        got = Du @ Mu if op == "diag@ndarray" else Mu @ Du
+        again = Du @ Mu if op == "diag@ndarray" else Mu @ Du
         req = np.diag(a) @ M if op == "diag@ndarray" else M @ np.diag(a)
-        return (np.asarray(got).tolist(), req.tolist()) if bad(got, req) else None
+        if bad(got, req):
+            return (np.asarray(got).tolist(), req.tolist())
+        if bad(again, req) or bad(Mu, M) or bad(np.diag(Du.diag), np.diag(a)):
+            return ("the operation changed its operands: the same product computed a second time gives " + str(np.asarray(again).tolist()), req.tolist())
+        return None
     if op in ("matrix+matrix", "matrix-matrix"):
         a = L.smrt_matrix(np.array(args["a"]), args["ka"]) if args["ka"] != "0" else L.smrt_matrix(0)
         b = L.smrt_matrix(np.array(args["b"]), args["kb"]) if args["kb"] != "0" else L.smrt_matrix(0)
@@ -453,10 +465,16 @@ def check_case(op, args):
         req = da + db if op == "matrix+matrix" else da - db
         try:
             got = a + b if op == "matrix+matrix" else a - b
+            again = a + b if op == "matrix+matrix" else a - b      # the same operand objects a second time
         except (ValueError, NotImplementedError):
             return None                      # a loud refusal is not a wrong number
         gd = dense_of_sm(got) if got.mtype != "0" else np.zeros(np.shape(req))
-        return (np.asarray(gd).tolist(), np.asarray(req).tolist()) if bad(gd, req) else None
+        if bad(gd, req):
+            return (np.asarray(gd).tolist(), np.asarray(req).tolist())
+        ad = dense_of_sm(again) if again.mtype != "0" else np.zeros(np.shape(req))
+        if bad(ad, req):
+            return ("the operation changed its operands: computed a second time it gives " + str(np.asarray(ad).tolist()), np.asarray(req).tolist())
+        return None
     raise KeyError(op)
 
 
